@@ -48,6 +48,7 @@ type rowT struct {
 	Sub       string `json:"sub"`
 	Presented string `json:"presented"`
 	Subject   string `json:"subject"`
+	Chain     string `json:"chain"` // what follows the leaf in the client's certificate chain: leaf (nothing) / plusVictim
 }
 type resT struct {
 	Accepted        bool   `json:"accepted"`
@@ -74,6 +75,7 @@ func keySki(pub *ecdsa.PublicKey) []byte {
 }
 
 var victimSki []byte
+var victimDER []byte // the victim's (public) certificate
 
 func forge(skiLen int, binding string) (tls.Certificate, []byte) {
 	priv, _ := ecdsa.GenerateKey(elliptic.P256(), rand.Reader)
@@ -174,6 +176,9 @@ func inbound(r rowT, port int, rec *recorder) resT {
 	}
 	if r.Cert {
 		c, ski := forge(r.SkiLen, r.Binding)
+		if r.Chain == "plusVictim" {
+			c.Certificate = append(c.Certificate, victimDER)
+		}
 		cfg.Certificates = []tls.Certificate{c}
 		res.CertSki = hex.EncodeToString(ski)
 	}
@@ -343,6 +348,7 @@ func main() {
 	v, _ := forge(20, "ownKey")
 	vc, _ := x509.ParseCertificate(v.Certificate[0])
 	victimSki = vc.SubjectKeyId
+	victimDER = v.Certificate[0]
 	hubCert, err := cert.CreateCertificate("unit", "org", "DE", "hub-under-test")
 	if err != nil {
 		fmt.Fprintln(os.Stderr, err)
